@@ -529,6 +529,7 @@ func run(a *hlib.Args, e *hlib.Emitter) error {
 	}
 	ncpu := numCPU()
 	if a.Replay != "" {
+		childTimeout = 20 * time.Second // replays (shrinking) must not wait long for a child that hangs
 		return replay(a, e, ncpu)
 	}
 	thorough := a.Tier == "thorough"
